@@ -75,6 +75,8 @@ pub(super) fn remove_or_compress_too_old_logfiles(
             )
         },
         |cleanup_thread_handle| {
+            #[cfg(flexi_logger_verif)]
+            crate::verif_hooks::point("cleanup.thread.send");
             cleanup_thread_handle
                 .sender
                 .send(MessageToCleanupThread::Act)
@@ -236,6 +238,8 @@ pub(super) fn start_cleanup_thread(
                     writes_direct,
                 )
                 .ok();
+                #[cfg(flexi_logger_verif)]
+                crate::verif_hooks::point("cleanup.thread.done");
             }
         })?,
     })
